@@ -5,7 +5,9 @@ from vlib import *
 RULE = ("generated documents (Info strings incl. non-ASCII, parentheses, backslash, 16-byte and longer values; page content streams; text "
         "annotations with /Contents and /Subj; text form fields with values; page labels with a prefix) x strengths {RC4-40, RC4-128, AES-128, "
         "AES-256} x writer configurations {classic, xref stream, xref + object streams} x compression on/off x password pairs drawn from "
-        "{empty, ASCII, with parentheses, Latin, Cyrillic, 40 bytes, 127 bytes, 140 bytes} x six permission words; the real writer writes "
+        "{empty, ASCII, with parentheses, Latin, Cyrillic, 40 bytes, 127 bytes, 140 bytes} x six permission words, plus per strength documents whose user AND owner "
+        "passwords have a 2-, 3- and 4-byte UTF-8 character lying across / ending at / starting at the truncation point (byte 32 for R2-R4, byte 127 for R5; "
+        "thorough: every position of every size in both roles); the real writer writes "
         "(plaintext objects recorded by the verif_c05 hook), the real reader re-opens and unlocks with the user, the owner and a wrong password. "
         "Channels: key (file key / refusal vs ISO algorithms on the library's UTF-8 password bytes), obj (writer model and reader model vs the "
         "raw object found in the file by an independent scanner and the reader's result; payload must equal the plaintext), doc (trailer flags "
